@@ -96,6 +96,23 @@ Proof. intros H. rewrite le_val_le_bytes. apply Z.mod_small. exact H. Qed.
 Lemma zlength_le_bytes n z : zlength (le_bytes n z) = Z.of_nat n.
 Proof. rewrite zlength_len, le_bytes_length. reflexivity. Qed.
 
+Lemma le_bytes_le_val l : Forall byte l -> le_bytes (length l) (le_val l) = l.
+Proof.
+  induction 1 as [|b r Hb _ IH]; cbn [length le_bytes le_val]; [reflexivity|].
+  unfold byte in Hb. f_equal.
+  - replace (b + 256 * le_val r) with (b + le_val r * 256) by lia. rewrite Z.mod_add by lia.
+    apply Z.mod_small. exact Hb.
+  - replace (b + 256 * le_val r) with (b + le_val r * 256) by lia. rewrite Z.div_add by lia.
+    rewrite Z.div_small by exact Hb. cbn [Z.add]. exact IH.
+Qed.
+
+Lemma le_val_range l : Forall byte l -> 0 <= le_val l < 256 ^ Z.of_nat (length l).
+Proof.
+  induction 1 as [|b r Hb _ IH]; cbn [length le_val]; [cbn; lia|].
+  unfold byte in Hb. replace (Z.of_nat (S (length r))) with (1 + Z.of_nat (length r)) by lia.
+  rewrite Z.pow_add_r by lia. rewrite Z.pow_1_r. nia.
+Qed.
+
 Global Opaque le_bytes.
 
 (* ------------------------------------------------------------------ take *)
@@ -112,6 +129,17 @@ Proof.
   - destruct l as [|x r]; [discriminate|].
     destruct (take n r) as [[a' b']|] eqn:E; [|discriminate].
     inversion H. subst. apply IH in E. destruct E as [-> <-]. split; reflexivity.
+Qed.
+
+Lemma takez_take l : forall n, takez l n = take (Z.to_nat n) l.
+Proof.
+  induction l as [|x r IH]; intros n; cbn [takez].
+  - destruct (n <=? 0) eqn:E.
+    + replace (Z.to_nat n) with O by lia. reflexivity.
+    + destruct (Z.to_nat n) eqn:E2; [lia|]. reflexivity.
+  - destruct (n <=? 0) eqn:E.
+    + replace (Z.to_nat n) with O by lia. reflexivity.
+    + rewrite IH. replace (Z.to_nat n) with (S (Z.to_nat (n - 1))) by lia. reflexivity.
 Qed.
 
 (* ------------------------------------------------------------------ constants of the source agree with the documented format *)
@@ -450,7 +478,7 @@ Proof.
     pose proof (take_app (le_bytes 4 (zlength d)) (d ++ rest)) as T4.
     rewrite le_bytes_length in T4. rewrite T4.
     rewrite !le_val_le_bytes_small by (pose proof (zlength_nonneg d); cbn; lia).
-    rewrite zlength_to_nat, take_app. reflexivity.
+    rewrite takez_take, zlength_to_nat, take_app. reflexivity.
   - cbn [app parse].
     rewrite <- app_assoc.
     pose proof (take_app (le_bytes 8 t) (d ++ rest)) as T8.
@@ -529,6 +557,7 @@ Proof.
   destruct (fl =? JUMBO_FLAG + 3).
   - destruct (take 4 rest2) as [[sb rest3]|] eqn:T4; [|discriminate].
     pose proof (take_rest_length _ _ _ _ T4) as L4.
+    rewrite takez_take.
     destruct (take (Z.to_nat (le_val sb)) rest3) as [[d rest4]|] eqn:Tn; [|discriminate].
     pose proof (take_rest_length _ _ _ _ Tn) as Ln.
     intros H. apply pcons_nofuel in H. revert H. apply IH. lia.
@@ -545,4 +574,79 @@ Theorem parse_stream_never_out_of_fuel bs : parse_stream bs <> PNoFuel.
 Proof.
   unfold parse_stream. destruct (zlist_eqb (firstn 8 bs) STREAM_HEADER); [|discriminate].
   apply parse_all_never_out_of_fuel.
+Qed.
+
+(* ------------------------------------------------------------------ parse is sound: it only accepts encodings *)
+
+Lemma pcons_ok e r es : pcons e r = POk es -> exists es', r = POk es' /\ es = e :: es'.
+Proof. destruct r; cbn [pcons]; intros H; inversion H. eexists. split; reflexivity. Qed.
+
+Lemma Forall_byte_forallb d : Forall byte d -> forallb byteb d = true.
+Proof.
+  intros H. apply forallb_forall. rewrite Forall_forall in H. intros x Hx. specialize (H x Hx).
+  unfold byte in H. unfold byteb. lia.
+Qed.
+
+Lemma parse_sound f : forall bs es,
+  Forall byte bs -> parse f bs = POk es -> flat_map encode es = bs /\ Forall wf_uev es.
+Proof.
+  induction f as [|f IH]; intros bs es HB H.
+  - destruct bs; cbn [parse] in H; [|discriminate]. inversion H. split; [reflexivity | constructor].
+  - destruct bs as [|fl [|m [|c [|v rest]]]]; cbn [parse] in H; try discriminate.
+    { inversion H. split; [reflexivity | constructor]. }
+    apply Forall_cons_iff in HB. destruct HB as [Bfl HB]. apply Forall_cons_iff in HB. destruct HB as [Bm HB].
+    apply Forall_cons_iff in HB. destruct HB as [Bc HB]. apply Forall_cons_iff in HB. destruct HB as [Bv HB].
+    destruct (take 8 rest) as [[cb rest2]|] eqn:T8; [|discriminate].
+    apply take_some in T8. destruct T8 as [-> L8]. apply Forall_app in HB. destruct HB as [Bcb HB].
+    pose proof (le_val_range cb Bcb) as RC. rewrite L8 in RC.
+    pose proof (le_bytes_le_val cb Bcb) as EC. rewrite L8 in EC.
+    assert (WB : forall x, byte x -> byteb x = true) by (intros x Hx; unfold byte in Hx; unfold byteb; lia).
+    destruct (fl =? JUMBO_FLAG + 3) eqn:EJ.
+    + destruct (take 4 rest2) as [[sb rest3]|] eqn:T4; [|discriminate].
+      apply take_some in T4. destruct T4 as [-> L4]. apply Forall_app in HB. destruct HB as [Bsb HB].
+      pose proof (le_val_range sb Bsb) as RS. rewrite L4 in RS.
+      pose proof (le_bytes_le_val sb Bsb) as ES. rewrite L4 in ES.
+      rewrite takez_take in H.
+      destruct (take (Z.to_nat (le_val sb)) rest3) as [[d rest4]|] eqn:Tn; [|discriminate].
+      apply take_some in Tn. destruct Tn as [-> Ln]. apply Forall_app in HB. destruct HB as [Bd HB].
+      apply pcons_ok in H. destruct H as (es' & P & ->).
+      destruct (IH _ _ HB P) as [E W]. split.
+      * cbn [flat_map]. rewrite E. unfold encode. cbn [u_jumbo u_m u_c u_v u_clock u_data].
+        assert (zlength d = le_val sb) by (rewrite zlength_len; lia). rewrite H, EC, ES.
+        apply Z.eqb_eq in EJ. subst fl. cbn [app]. rewrite <- !app_assoc. reflexivity.
+      * constructor; [|exact W]. unfold wf_uev, wf_uevb. cbn [u_jumbo u_m u_c u_v u_clock u_data].
+        rewrite (WB _ Bm), (WB _ Bc), (WB _ Bv), (Forall_byte_forallb _ Bd).
+        assert (zlength d = le_val sb) by (rewrite zlength_len; lia). cbn in RC, RS. lia.
+    + destruct ((0 <=? fl) && (fl <=? 15)) eqn:E15; [|discriminate].
+      set (n := if fl =? 0 then 0 else fl + 1) in *.
+      destruct (take (Z.to_nat n) rest2) as [[d rest3]|] eqn:Tn; [|discriminate].
+      apply take_some in Tn. destruct Tn as [-> Ln]. apply Forall_app in HB. destruct HB as [Bd HB].
+      apply pcons_ok in H. destruct H as (es' & P & ->).
+      destruct (IH _ _ HB P) as [E W].
+      assert (Zd : zlength d = n) by (rewrite zlength_len; unfold n in *; destruct (fl =? 0); lia).
+      assert (Nb : nibble (zlength d) = fl).
+      { rewrite Zd. unfold nibble, n. destruct (fl =? 0) eqn:E0; [cbn; lia|]. destruct (fl + 1 =? 0) eqn:E1; lia. }
+      split.
+      * cbn [flat_map]. rewrite E. unfold encode. cbn [u_jumbo u_m u_c u_v u_clock u_data].
+        rewrite Nb, EC. cbn [app]. rewrite <- !app_assoc. reflexivity.
+      * constructor; [|exact W]. unfold wf_uev, wf_uevb. cbn [u_jumbo u_m u_c u_v u_clock u_data].
+        rewrite (WB _ Bm), (WB _ Bc), (WB _ Bv), (Forall_byte_forallb _ Bd).
+        cbn in RC. unfold n in Zd. destruct (fl =? 0) eqn:E0; lia.
+Qed.
+
+(* a file accepted by the strict parser is exactly the header followed by the encodings of the events
+   it returns ("events tile the file exactly") *)
+Theorem parse_stream_sound bs es :
+  Forall byte bs -> parse_stream bs = POk es ->
+  bs = STREAM_HEADER ++ flat_map encode es /\ Forall wf_uev es.
+Proof.
+  intros HB H. unfold parse_stream in H.
+  destruct (zlist_eqb (firstn 8 bs) STREAM_HEADER) eqn:EH; [|discriminate].
+  assert (EQ : forall a b, zlist_eqb a b = true -> a = b).
+  { induction a as [|x a IHa]; intros [|y b] E; cbn [zlist_eqb] in E; try discriminate; [reflexivity|].
+    apply andb_prop in E. destruct E as [E1 E2]. apply Z.eqb_eq in E1. subst. f_equal. apply IHa. exact E2. }
+  apply EQ in EH. unfold parse_all in H.
+  rewrite <- (firstn_skipn 8 bs) in HB. apply Forall_app in HB. destruct HB as [_ HB].
+  destruct (parse_sound _ _ _ HB H) as [E W]. split; [|exact W].
+  rewrite E, <- EH. symmetry. apply firstn_skipn.
 Qed.
